@@ -117,3 +117,18 @@ def _(c):
     c.ensures("err_ok(self) and self.error == absv(self.value) * rele / 100", "absolute-error-from-relative")
     c.no_raise()
     c.modifies("self.error")
+
+
+# ---- a plain number as the other operand (an int or a float, of either sign): the same rules as for an exact magnitude -----------------------
+for meth, sym in (("__mul__", "*"), ("__rmul__", "*"), ("__truediv__", "/")):
+    @contract(f"{MAG}.{meth}", ["C08", "C06"], name=f"Magnitude.{meth}[plain-number]")
+    def _(c, meth=meth, sym=sym):
+        for err in (True, False):
+            for kind in ("real", "int"):
+                c.scenario(f"{'err' if err else 'exact'}-{kind}", (lambda err, kind: lambda b: dict(args=[mag(b, "a", err), getattr(b, kind)("k")]))(err, kind))
+        c.requires("err_ok(self)" + (" and other != 0" if sym == "/" else ""))
+        c.ensures(f"result.value == self.value {sym} other", "value")
+        c.ensures("(result.error is None) == (self.error is None)", "exact-iff-exact")
+        c.ensures("result.error is None or result.error == " + ("self.error * absv(other)" if sym == "*" else "self.error / absv(other)"), "uncertainty-scaled-by-the-absolute-number")
+        c.ensures("err_ok(result)", "error-non-negative")
+        c.no_raise()
